@@ -94,3 +94,4 @@ func verifAwaitAfterFunc(id int) {}
 func verifAtomic(f func())      { f() }
 func verifLastRandN() int           { return 0 }
 func verifLastRand() int            { return 0 }
+func verifBoundSelectDefaults(n int) {}
